@@ -5,6 +5,8 @@
 //!   p<deg>,<seed> polynomial of degree <deg> with coefficients in -3..3, argument u = g/64 (Horner)
 //!   s<hex f64>   sine, sin(2*pi*f*g + 0.3*ch)  (libm: compared with a tolerance only)
 //!   k<pos>       unit impulse at global frame <pos> on every channel
+//!   d<seed>      the noise r<seed> scaled by 2^-140  (subnormal once cast to f32)
+//!   e<seed>      the noise r<seed> scaled by 2^-1040 (subnormal in f64, zero in f32)
 pub const K1: u64 = 0x9E3779B97F4A7C15;
 pub const K2: u64 = 0xC2B2AE3D27D4EB4F;
 
@@ -23,6 +25,8 @@ pub enum Sig {
     Poly(usize, u64),
     Sine(f64),
     Impulse(u64),
+    Tiny32(u64),
+    Tiny64(u64),
 }
 
 impl Sig {
@@ -40,6 +44,8 @@ impl Sig {
             }
             "s" => u64::from_str_radix(t, 16).ok().map(|b| Sig::Sine(f64::from_bits(b))),
             "k" => t.parse().ok().map(Sig::Impulse),
+            "d" => t.parse().ok().map(Sig::Tiny32),
+            "e" => t.parse().ok().map(Sig::Tiny64),
             _ => None,
         }
     }
@@ -67,6 +73,8 @@ impl Sig {
                 acc + ch as f64
             }
             Sig::Sine(f) => (2.0 * std::f64::consts::PI * f * g as f64 + 0.3 * ch as f64).sin(),
+            Sig::Tiny32(seed) => Sig::Noise(*seed).value(ch, g) * f64::from_bits(0x3730000000000000),
+            Sig::Tiny64(seed) => Sig::Noise(*seed).value(ch, g) * f64::from_bits(0x0000000400000000),
             Sig::Impulse(p) => {
                 if g == *p {
                     1.0
